@@ -275,6 +275,8 @@ def c14(tier, seed):
     # "a call raises only because of a node failure or invalid arguments": valid calls, explicit setup() and repeated calls of DAGs
     # with setup nodes (some return None), fault-free
     jobs += sched_jobs(tier, seed + 41, gen=dict(nmin=3, nmax=8, mc_max=3, setup_rate=0.35), faults=False, dfs=False, stress=False, scale=0.25)
+    # failures inside shapes of 40..170 call sites with levels much wider than the pool: nothing that was still waiting starts afterwards
+    jobs += medium_jobs("C14", tier, seed, faults=True)
     return dict(
         jobs=jobs, level="fault_enumeration",
         rule=RULE_SCHED + RULE_W3 + "; fault plans = 1 or 2 call sites raising a marked exception (any resource; exceptions with one, several "
@@ -382,6 +384,8 @@ def c10(tier, seed):
                 **_seeds(seed + 45, k)) for k in range(2 if tier == "quick" else 8)]
         # a flag that is a DAG argument is evaluated for every call: IF a setup node carrying such a flag can be built at all, the
         # second call does not run on the first call's flag
+        # wide last levels (8 .. 18 independent flagged leaves) with max_concurrency up to 16: every flag is still judged
+        + diff_jobs("C10", tier, seed + 5, dict(flags=0.7, nest=0.1, nest_flag=0.3, max_stmts=18, ops=0.02, kwargs=0.2, mc_max=16), 1, scale=0.3, nj_scale=0.5)
         + [dict(kind="comp19", pid="C10", n_cases=(600 if tier == "quick" else 2500),
                 only=["composed_dag_ran_more_or_less_than_the_outputs_need", "composed_value_differs_from_substituted_pipeline"],
                 **_seeds(seed + 49, k)) for k in range(2 if tier == "quick" else 6)]
